@@ -256,6 +256,30 @@ Definition chk_C08 (s : src) (o : tree_obs) : N :=
   | _ => 100
   end.
 
+(* C08, "... or through map() of an enclosing source": the map an outside caller gets - from the
+   source itself (a user-defined source: the default streaming helper and the encoder) or from a
+   ConcatSource around it - attributes every character as looking it up in M.  Kept apart from
+   chk_C08 (whose acceptance of the model is a theorem). *)
+Definition chk_C08_maps (s : src) (o : tree_obs) : N :=
+  if negb (treeA s) then 100 else
+  match s, to_maps o with
+  | SMapped v _ m _ None _, [m1; m0] =>
+    if negb (list_eqb_attr attr_eqb (attr_of_map (Some m) v true) (attr_of_map m1 v true)) then 8
+    else if negb (list_eqb_attr attr_eqb_fl (attr_of_map (Some m) v false) (attr_of_map m0 v false)) then 9
+    else 0
+  | SConcat [SRaw false pre; SMapped v _ m _ None _], [m1; _] =>
+    if negb (list_eqb_attr attr_eqb (map (fun _ => None) pre ++ attr_of_map (Some m) v true)
+                           (attr_of_map m1 (pre ++ v) true)) then 10
+    else 0
+  | _, _ => 100
+  end.
+
+Definition chk_C08_all (s : src) (o : tree_obs) : N :=
+  let a := chk_C08 s o in
+  if (a =? 0) || (a =? 100) then
+    let b := chk_C08_maps s o in if b =? 100 then a else b
+  else a.
+
 (* ---------- C11 ---------- *)
 (* announced indices dense from zero in order of first announcement; indices used by a chunk
    announced earlier *)
